@@ -1,16 +1,18 @@
 (* C11 — EDF round trip: what encodes, decodes to the same value.
    Property theorems only; definitions in Edf/Model.v, proofs in Edf/Proofs.v. *)
-From Ergo Require Import Common.Base Common.Bytes Common.Codec Edf.Model Edf.Proofs.
+From Ergo Require Import Common.Base Common.Bytes Common.Codec Edf.Model Edf.Proofs Edf.Negotiate Edf.NegotiateProofs.
 Local Open Scope N_scope.
 
 (* For every option set a handshake can produce (unique cache ids in their ranges), every type and
    value of the model's universe (primitives, framework identifiers, time, errors, any nesting of
-   slices / arrays / maps / interfaces, registered structs and named types), and every continuation
-   [rest] of the input: whatever Encode accepts, Decode (with the connection's decoding options)
-   returns as the same type and the canonical form of the value, consuming exactly the bytes
-   produced.  [supported] is the explicit boolean guard excluding the three known findings. *)
+   slices / arrays / maps / interfaces, registered structs and named types, values of Marshaler
+   types), and every continuation [rest] of the input: whatever Encode accepts, Decode (with the
+   connection's decoding options) returns as the same type and the canonical form of the value,
+   consuming exactly the bytes produced.  [supported] is the explicit boolean guard excluding the
+   three known findings; [marsh_inv] is the hypothesis on user code: for every Marshaler type of the
+   registry the user's Unmarshal inverts the user's Marshal. *)
 Theorem C11_roundtrip_partial : forall o t v bs rest,
-  wf_opts o -> supported o t v = true -> encode o t v = Ok bs ->
+  wf_opts o -> marsh_inv o -> supported o t v = true -> encode o t v = Ok bs ->
   decode (dual o) (bs ++ rest) = Ok (t, canon o v, rest).
 Proof. exact roundtrip_partial. Qed.
 Print Assumptions C11_roundtrip_partial.
@@ -37,7 +39,7 @@ Print Assumptions C11_roundtrip_refuted_atom_mapping.
 
 (* nil and empty slices: different bytes, each comes back as sent *)
 Theorem C11_nil_vs_empty : forall o t,
-  wf_opts o -> desc_ok o (TSlice t) = true -> ty_enc_ok o t = true -> (1 <= o_fuel o)%nat ->
+  wf_opts o -> marsh_inv o -> desc_ok o (TSlice t) = true -> ty_enc_ok o t = true -> (1 <= o_fuel o)%nat ->
   exists b1 b2, encode o (TSlice t) VNil = Ok b1 /\ encode o (TSlice t) (VList []) = Ok b2 /\ b1 <> b2 /\
     decode (dual o) b1 = Ok (TSlice t, VNil, []) /\ decode (dual o) b2 = Ok (TSlice t, VList [], []).
 Proof. exact nil_vs_empty. Qed.
@@ -45,7 +47,7 @@ Print Assumptions C11_nil_vs_empty.
 
 (* a registered sentinel error comes back as the same sentinel *)
 Theorem C11_sentinel_errors : forall o k txt bs rest,
-  wf_opts o -> err_cached o k = true -> encode o (TPrim PError) (VErr (Some k) txt) = Ok bs ->
+  wf_opts o -> marsh_inv o -> err_cached o k = true -> encode o (TPrim PError) (VErr (Some k) txt) = Ok bs ->
   decode (dual o) (bs ++ rest) = Ok (TPrim PError, VErr (Some k) txt, rest).
 Proof. exact sentinel_errors. Qed.
 Print Assumptions C11_sentinel_errors.
@@ -84,8 +86,98 @@ Print Assumptions C11_string_after_fix.
 (* non-vacuity: a registered struct with interface, slice-of-struct, map, error and atom fields under
    atom cache + atom mapping + type cache + error cache meets the hypotheses *)
 Example C11_example :
-  wf_opts ex_opts /\ supported ex_opts (TReg [35; 82]) ex_val = true /\
+  wf_opts ex_opts /\ marsh_inv ex_opts /\ supported ex_opts (TReg [35; 82]) ex_val = true /\
   exists bs, encode ex_opts (TReg [35; 82]) ex_val = Ok bs /\ (40 <= length bs)%nat /\
              decode (dual ex_opts) bs = Ok (TReg [35; 82], canon ex_opts ex_val, []).
 Proof. exact roundtrip_example. Qed.
 Print Assumptions C11_example.
+
+(* ---- custom marshalers (edf.Marshaler, encoding.BinaryMarshaler) ---------------------------------
+   the bytes of a marshaler value: registered-type header, 4-byte big-endian payload length, payload *)
+Theorem C11_marshaler_bytes : forall o name m u x p,
+  (1 <= o_fuel o)%nat -> lookup_reg o name = Some (RMarsh m u) -> m x = Ok p -> blen p <= maxMarsh ->
+  encode o (TReg name) (VMarsh x) = Ok (prefix o (TReg name) ++ put_be 4 (blen p) ++ p).
+Proof. exact marshaler_bytes. Qed.
+Print Assumptions C11_marshaler_bytes.
+
+(* it comes back as the same state, consuming exactly those bytes (nested positions: the general
+   theorem above) *)
+Theorem C11_marshaler_roundtrip : forall o name m u x bs rest,
+  wf_opts o -> marsh_inv o -> lookup_reg o name = Some (RMarsh m u) ->
+  encode o (TReg name) (VMarsh x) = Ok bs ->
+  decode (dual o) (bs ++ rest) = Ok (TReg name, VMarsh x, rest).
+Proof. exact marshaler_roundtrip. Qed.
+Print Assumptions C11_marshaler_roundtrip.
+
+(* a payload longer than 2^32-2 bytes is rejected when encoding *)
+Theorem C11_marshaler_overlong_rejected : forall o name m u x p,
+  (1 <= o_fuel o)%nat -> lookup_reg o name = Some (RMarsh m u) -> m x = Ok p -> maxMarsh < blen p ->
+  encode o (TReg name) (VMarsh x) = Err ETooLong.
+Proof. exact marshaler_overlong_rejected. Qed.
+Print Assumptions C11_marshaler_overlong_rejected.
+
+(* the hypothesis follows from a per-entry statement, holds for registries without Marshaler types and
+   for the harness's own marshaler types (xor 0x5a / byte reversal) *)
+Theorem C11_marsh_inv_forall : forall o,
+  Forall (fun e => match snd e with RMarsh m u => inverts m u | _ => True end) (o_reg o) -> marsh_inv o.
+Proof. exact marsh_inv_forall. Qed.
+Print Assumptions C11_marsh_inv_forall.
+
+Theorem C11_harness_marshalers_invert : inverts mar_xor unmar_xor /\ inverts mar_rev unmar_rev.
+Proof. exact (conj xor_inverts rev_inverts). Qed.
+Print Assumptions C11_harness_marshalers_invert.
+
+(* ... and cannot be dropped: with an Unmarshal that does not invert Marshal the codec still moves the
+   payload faithfully but the value comes back different *)
+Theorem C11_marsh_hypothesis_needed :
+  wf_opts o_badmarsh /\ supported o_badmarsh (TReg [35; 77]) (VMarsh [1]) = true /\
+  exists bs, encode o_badmarsh (TReg [35; 77]) (VMarsh [1]) = Ok bs /\
+             decode (dual o_badmarsh) bs = Ok (TReg [35; 77], VMarsh [91], []).
+Proof. exact marsh_hypothesis_needed. Qed.
+Print Assumptions C11_marsh_hypothesis_needed.
+
+Example C11_marshaler_example :
+  wf_opts exm_opts /\ marsh_inv exm_opts /\ supported exm_opts (TReg [35; 76]) exm_val = true /\
+  exists bs, encode exm_opts (TReg [35; 76]) exm_val = Ok bs /\ (40 <= length bs)%nat /\
+             decode (dual exm_opts) bs = Ok (TReg [35; 76], exm_val, []).
+Proof. exact marshaler_example. Qed.
+Print Assumptions C11_marshaler_example.
+
+(* ---- caches negotiated by two nodes with different registries (net/handshake/handshake.go) ----------
+   [g_ta g] / [g_tb g]: the sentinel registries of the sending node A and the receiving node B, entries
+   (error object, id, text).  A encodes with the cache made of its own registry, B decodes with the cache
+   [make_decode_err_cache] builds from B's registry and the table A announced.
+   A registered sentinel travels as its 2-byte id ... *)
+Theorem C11_negotiated_sentinel_bytes : forall g obj id txt,
+  wf_etable_b (g_ta g) = true -> In (obj, id, txt) (g_ta g) ->
+  enc_error (enc_opts g) (Some obj) txt = Ok (put_be 2 id).
+Proof. exact neg_sentinel_bytes. Qed.
+Print Assumptions C11_negotiated_sentinel_bytes.
+
+(* ... and for EVERY pair of registries (any ids, any registration order, any overlap) B decodes it as the
+   error object [k] with the same text, where k is THE sentinel B registered under that text (B's texts
+   injective), and the object B received in the announcement when B has no such sentinel *)
+Theorem C11_negotiated_sentinel_spec : forall g objA id txt bs r,
+  wf_etable_b (g_ta g) = true -> texts_injb (g_tb g) = true -> In (objA, id, txt) (g_ta g) ->
+  enc_error (enc_opts g) (Some objA) txt = Ok bs ->
+  exists k, dec_error (dec_opts g) (bs ++ r) = Ok (VErr (Some k) txt, r) /\
+    (forall objB idB, In (objB, idB, txt) (g_tb g) -> k = objB) /\
+    ((forall objB idB, ~ In (objB, idB, txt) (g_tb g)) -> k = foreign id) /\
+    strip_foreign (VErr (Some k) txt) = strip_foreign (expect_err (g_tb g) txt).
+Proof. exact neg_sentinel_spec. Qed.
+Print Assumptions C11_negotiated_sentinel_spec.
+
+(* a decode cache keyed by the numeric id alone returns another sentinel when the two nodes registered
+   their errors in a different order *)
+Example C11_cache_by_id_wrong :
+  err_by_id 32768 (make_decode_err_cache ex_tb (announce ex_ta)) = Some (0, [97]) /\
+  err_by_id 32768 (decode_cache_by_id ex_tb (announce ex_ta)) = Some (1, [98]).
+Proof. exact by_id_cache_wrong. Qed.
+Print Assumptions C11_cache_by_id_wrong.
+
+Example C11_negotiated_example :
+  wf_etable_b (g_ta ex_nego) = true /\ texts_injb (g_tb ex_nego) = true /\
+  dec_error (dec_opts ex_nego) [128; 0; 7] = Ok (VErr (Some 0) [97], [7]) /\
+  dec_error (dec_opts ex_nego) [128; 2] = Ok (VErr (Some (foreign 32770)) [99], []).
+Proof. exact neg_example. Qed.
+Print Assumptions C11_negotiated_example.
